@@ -185,7 +185,7 @@ def branch(cond):
         cx.assume(c if choice else z3.Not(c))
         cx.cache[key] = (c, choice)
         return choice
-    if cx.max_depth is not None and len(cx.decisions) >= cx.max_depth:
+    if cx.max_depth is not None and sum(1 for d in cx.decisions if d[2]) >= cx.max_depth:
         raise CutPath()
     can_t = cx.check(c)
     can_f = cx.check(z3.Not(c))
@@ -193,7 +193,7 @@ def branch(cond):
         raise Inconclusive('infeasible path condition')
     choice = bool(can_t)
     both = can_t and can_f
-    cx.decisions.append([choice, both])
+    cx.decisions.append([choice, both, both])
     cx.pos += 1
     STATS.decisions += 1
     STATS.forks += both
@@ -246,7 +246,7 @@ def explore(fn, prefix=(), max_depth=None, max_paths=None):
     status is 'done' or 'cut' (max_depth reached; value is then the tuple of decisions taken, to be handed to a
     worker as its prefix)."""
     global CTX
-    decisions = [[bool(c), False] for c in prefix]
+    decisions = [[bool(c), False, False] for c in prefix]
     npaths = 0
     while True:
         cx = Ctx(decisions, max_depth)
@@ -271,7 +271,7 @@ def explore(fn, prefix=(), max_depth=None, max_paths=None):
             decisions.pop()
         if not decisions:
             return
-        decisions[-1] = [not decisions[-1][0], False]
+        decisions[-1] = [not decisions[-1][0], False, True]
         if max_paths and npaths >= max_paths:
             return
 
